@@ -19,6 +19,7 @@ FileInit ==
      /\ N = c.n /\ par = c.par /\ dep = c.dep /\ cid = c.cid
      /\ Sl0 = ToSet(c.sl) /\ Sr = ToSet(c.sr) /\ userSkip = c.userSkip
      /\ ignore = ToSet(c.ignore) /\ keyed = c.keyed
+     /\ adv = c.adv /\ script = c.script
   /\ RunInit
 Stutter == UNCHANGED ovars
 ImplNext == Next /\ UNCHANGED caseNo
@@ -79,6 +80,18 @@ C07Resp ==
        \/ /\ Obs.status = "failed" /\ RespLoadsNeeded > Budget /\ WirePresent = Budget
 C07OK == ~Obs.hang /\ IF OnRequestor THEN C07Req ELSE C07Resp
 JudgeBudget == PrintT(ToJson([id |-> Case.id, c07 |-> C07OK]))
+
+\* ---------------------------------------------------------------- C01: soundness under any responder
+Labels == { cid[i] : i \in V }
+DeliveredSet == ToSet(Obs.delivered)
+C01OK == /\ ~Obs.badHash
+         /\ ToSet(Obs.writes) \subseteq { cid[i] : i \in DeliveredSet }       \* only blocks of visits the traversal loaded, never foreign ones
+         /\ ToSet(Obs.store) \subseteq Sl0 \cup { cid[i] : i \in DeliveredSet }
+         /\ \A k \in 1..Len(Obs.delivered) : LET i == Obs.delivered[k] IN i \in V /\ (i = 1 \/ par[i] \in DeliveredSet)
+         /\ \A k \in 1..(Len(Obs.delivered) - 1) : Obs.delivered[k] < Obs.delivered[k+1]
+         /\ Obs.nodesPrefixOK
+         /\ \A i \in DeliveredSet : cid[i] \in ToSet(Obs.store)
+JudgeSound == PrintT(ToJson([id |-> Case.id, c01 |-> C01OK]))
 
 ImplMatches == /\ Obs.delivered = delivered
                /\ ToSet(Obs.missing) = errs
